@@ -190,7 +190,39 @@ def check_c15(tier, seed, log=print):
 
 
 def stack_check(run, r, tier, seed, log=print):
-    return dict(note='not built yet')
+    """C06: the state-machine lexer on a 64 KiB stack with 4 MiB inputs: one long token, many tokens,
+    a million consecutive skips. Each probe runs in its own process (an overflow kills it)."""
+    import zoo as Z
+    corpus = r['corpus']
+    idx = [i for i in r['accepted'] if corpus[i].origin == 'fixed:stack']
+    res = dict(probes=0, configs=[])
+    if not idx:
+        return dict(note='stack definition not in corpus')
+    i = idx[0]
+    probes = {'long token': b'a' * 64, 'many tokens': b'ab', 'consecutive skips': b'x' * 64, 'skips and tokens': b'xxa', 'errors': b'z'}
+    for cfgname in r['zoo_out']:
+        if not cfgname.startswith('sm') or 'trace' in cfgname or r['zoo_out'][cfgname] is None:
+            continue
+        binp = os.path.join(P.HARNESS, 'target-zoo', 'zoo-%s-%s' % (r['tier'], cfgname), 'debug', 'zoo')
+        res['configs'].append(cfgname)
+        for what, unit in probes.items():
+            rq = '%d S %s' % (i, P.hexs(unit))
+            try:
+                p = subprocess.run([binp], input=rq + '\n', capture_output=True, text=True, timeout=300)
+                out, rc = p.stdout.strip(), p.returncode
+            except subprocess.TimeoutExpired:
+                out, rc = 'TIMEOUT', -1
+            res['probes'] += 1
+            ok = rc == 0 and 'count=' in out and 'PANIC' not in out
+            if ok:
+                m = _re.search(r'end=(\d+) len=(\d+)', out)
+                ok = bool(m) and m.group(1) == m.group(2)
+            if not ok:
+                run.violation('stack', dict(definition=r['srcs'][i], config=cfgname, probe=what, unit_hex=P.hexs(unit), observed=out[-200:], exit=rc,
+                                            what='state-machine lexer failed on a 4 MiB input with a 64 KiB stack (stack use grows with the input?)'),
+                              key='stack|%s|%s' % (cfgname, what))
+            res.setdefault('samples', []).append('%s %s: %s' % (cfgname, what, out[-60:]))
+    return res
 
 
 # ---------------------------------------------------------------------------------------------
